@@ -222,6 +222,28 @@ def run_absent(case, res=None):
                 check_present(built, w)
             if res is not None:
                 res.cls("absent:removed_in_second_database")
+        # the index is a value: the SAME scheme object encrypts yet another database (more than twice as large where the
+        # configuration has room, otherwise half as large) and then the EARLIER index is searched again
+        if len(built.db) >= 1:
+            from vlib.search_common import stage_violation
+            keep_db, keep_edb = built.db, built.edb
+            other = S.grown_db(built.desc, built.cfg, keep_db)
+            how = "larger"
+            if other is None:
+                how = "smaller"
+                ks = list(keep_db)
+                other = {w: list(keep_db[w]) for w in ks[:max(1, len(ks) // 2)]}
+            try:
+                built.scheme.EDBSetup(built.key, other)
+            except Exception as e:
+                raise stage_violation(built.scheme_name, "EDBSetup(%s database, same scheme object)" % how, e)
+            for w, tag in absent[:3]:
+                if w not in keep_db:
+                    check_absent(built, w, tag + ", earlier index searched after a %s database was encrypted by the same scheme object" % how)
+            for w in list(keep_db)[:3]:
+                check_present(built, w)
+            if res is not None:
+                res.cls("absent:earlier_index_after_%s_setup" % how)
         return len(absent)
 
 
